@@ -47,6 +47,7 @@ def run(ctx, rep):
     import c29
     c29.check_instruction(fx, _Rename(rep, 'R2-instruction-wrapper'))
     check_purity(ctx, rep)
+    check_observers_cannot_panic(ctx, rep)
     check_justification(fx, rep)
     rep.assume('an inspector that rewrites inputs or outcomes is by definition not "observing"; the wrappers faithfully forward whatever the hook returns')
 
@@ -360,3 +361,40 @@ def check_justification(fx, rep):
         rep.violation('R3-justification', 'is_error-disjoint', 'GasInspector spends all gas of outcomes whose result is_error(); %s are also ok/revert results whose remaining gas is handed back to the caller' % sorted(clash), f.where())
     else:
         rep.ok('R3-justification', 'is_error-disjoint', 'is_error (%d variants) is disjoint from ok and revert classes: the gas zeroed by GasInspector is never read' % len(err))
+
+
+PANIC_SOURCES = ('::unwrap', '::expect', '::unwrap_unchecked', 'panicking::panic', 'panicking::panic_fmt', 'unwrap_failed', 'expect_failed',
+                 'ruint::from::<impl ruint::Uint>::from', 'ruint::from::<impl ruint::Uint>::to', 'ruint::from::<impl ruint::Uint>::saturating_to')
+
+
+def check_observers_cannot_panic(ctx, rep):
+    """R5: an observing inspector that panics changes execution (the same transaction completes
+    without it).  The hook bodies of the no-op, gas and EIP-3155 inspectors - and the helpers of
+    their modules - contain no unwrap / expect / panic and no panicking integer conversion
+    (ruint's `Uint::from` panics on a negative or too wide source, the refund counter is an i64)."""
+    n = 0
+    seen = set()
+    for cfgn in ('default', 'serde-json'):
+        fx = ctx.facts(cfgn)
+        for g in fx.fns_all:
+            nq = g.nq
+            if '::test' in nq or not any(m in nq for m in ('revm::inspector::eip3155', 'revm::inspector::gas', 'revm::inspector::noop')):
+                continue
+            if nq in seen:
+                continue
+            seen.add(nq)
+            n += 1
+            rep.fn(g)
+            for bi, t in g.calls():
+                nm = t.target_fn or t.callee or ''
+                if t.exp:
+                    continue            # inside a macro expansion of the standard library (format!, write!)
+                if any(nm.endswith(p) or p in nm for p in PANIC_SOURCES):
+                    src = [(g.local_ty(a.place.b) or '?') if a.place is not None else 'const' for a in t.args[:1]]
+                    if 'ruint::from' in nm and src and src[0] in ('u8', 'u16', 'u32', 'u64', 'usize', 'u128', 'bool'):
+                        continue        # an unsigned source no wider than 256 bits always fits
+                    who = nq.split('inspector::')[-1]
+                    rep.violation('R5-observers-cannot-panic', who, '%s calls %s(%s), which can panic: with this inspector attached a transaction can abort that completes without it' % (who, nm.split('::')[-1] if 'ruint' not in nm else 'Uint::' + nm.split('::')[-1], ', '.join(src)), g.where(bi))
+    rep.floor('R5-observer-functions', n, 20)
+    if n:
+        rep.ok('R5-observers-cannot-panic', 'all', '%d functions of the three observer modules' % n)
